@@ -343,3 +343,12 @@ func TestVerifC15Witness(t *testing.T) {
 	c := c15Case{Sessions: []vw.BGPSession{{Name: "peer0", MyASN: 64512, PeerASN: 64512, Addr: "10.1.0.1", Src: "192.168.9.1"}}, Order: []int{0}, AdvPerm: [][]int{{}}}
 	vw.RunFixed(t, vw.Options{Property: "C15", Engine: "frrk8s-witness", Rule: "fixed witness of the known finding"}, []c15Case{c}, runC15)
 }
+
+// C05 through this backend: what each neighbor of the produced FRRConfiguration is offered (prefixes, local
+// preference, communities) must be exactly what was requested on its session - no attribute of another peer.
+func TestVerifC05FRRK8s(t *testing.T) {
+	vw.Run(t, vw.Options{Property: "C05", Engine: "frrk8s-backend",
+		Rule:        "the session sets and advertisement lists of the C15 engine (several neighbors with different advertisements, repeated prefixes, communities, local preferences) through the real frr-k8s session manager; per neighbor the offered prefixes with their attributes must equal the request of that session; non-trivial as in C15",
+		Assumptions: []string{"the speaker hands each session the advertisements of its peer (judged by the C05 speaker engine); this engine judges what the backend makes of them"}},
+		genC15, runC15)
+}
